@@ -452,6 +452,22 @@ class BufferedGenerator(VC):
 NOT_BYTE_IDENTICAL = ("utf-7",)
 
 
+_SCRATCH = {}
+
+
+def scratch_dir(prefix="c10"):
+    """one scratch directory per process (under TMPDIR, i.e. the per-run directory of ./check), removed at exit"""
+    pid = os.getpid()
+    if _SCRATCH.get("pid") != pid:
+        import atexit
+        import shutil
+        d = tempfile.mkdtemp(prefix=prefix)
+        _SCRATCH.clear()
+        _SCRATCH.update(pid=pid, dir=d)
+        atexit.register(shutil.rmtree, d, True)
+    return _SCRATCH["dir"]
+
+
 class Boom(Exception):
     """raised by the stand-in render function of the native oracle"""
 
@@ -693,7 +709,7 @@ def native_check(w):
                 return "the buffered stream does not terminate"
         extra = (enc,) if errors == "strict" else (enc, errors)
         if target == "path":
-            d = tempfile.mkdtemp(prefix="c10dump")
+            d = scratch_dir()
             path = os.path.join(d, "out.bin")
             opened = []
             real_open = open
@@ -763,8 +779,7 @@ def native_check(w):
                         pass
                 return None
             finally:
-                import shutil
-                shutil.rmtree(d, ignore_errors=True)
+                pass
         f = _FileWL() if target == "wl" else _FileNoWL()
         try:
             s.dump(f, *extra)
@@ -1652,7 +1667,7 @@ class Dump(C10VC):
         VC.__init__(self, "C10", f"C10.TemplateStream.dump[{kind},{'encoding' if with_encoding else 'no encoding'}]")
 
     def native_family(self):
-        for pat in PATTERNS:
+        for pat in ("", "1", "101", "0110"):
             for enc, errors in ((None, "strict"), (None, "replace"), ("utf-8", "strict"), ("ascii", "replace"),
                                 ("utf-16-le", "strict"), ("ascii", "strict"), ("latin-1", "replace")):
                 if (enc is not None) != self.with_encoding:
@@ -2191,7 +2206,7 @@ def e2e_case(name, data, sizes):
             j = b"".join(got).decode("utf-8") if enc else "".join(got)
             if j != text or f.closed:
                 return f"dump(file object, encoding={enc}, buffer={size}) wrote {j!r}"
-        d = tempfile.mkdtemp(prefix="c10e2e")
+        d = scratch_dir()
         try:
             path = os.path.join(d, "o")
             s = t.stream(data)
@@ -2201,8 +2216,7 @@ def e2e_case(name, data, sizes):
             if open(path, "rb").read().decode("utf-8") != text:
                 return f"dump(path, buffer={size}) differs"
         finally:
-            import shutil
-            shutil.rmtree(d, ignore_errors=True)
+            pass
     return None
 
 
@@ -2250,14 +2264,13 @@ def dump_codec_case(enc, errors, pieces, size, target, reps=2):
     if size:
         s.enable_buffering(size)
     if target == "path":
-        d = tempfile.mkdtemp(prefix="c10enc")
+        d = scratch_dir()
         try:
             path = os.path.join(d, "o")
             s.dump(path, enc, errors)
             data = open(path, "rb").read()
         finally:
-            import shutil
-            shutil.rmtree(d, ignore_errors=True)
+            pass
     else:
         f = _FileWL() if target == "wl" else _FileNoWL()
         s.dump(f, enc, errors)
@@ -2388,14 +2401,13 @@ def sweep_case(enc, pieces, target="path"):
     for _ in range(2):  # two dumps in a row
         s = E.TemplateStream(iter(list(pieces)))
         if target == "path":
-            d = tempfile.mkdtemp(prefix="c10sweep")
+            d = scratch_dir()
             try:
                 path = os.path.join(d, "o")
                 s.dump(path, enc)
                 datas.append(open(path, "rb").read())
             finally:
-                import shutil
-                shutil.rmtree(d, ignore_errors=True)
+                pass
         else:
             f = _FileWL()
             s.dump(f, enc)
@@ -2424,8 +2436,8 @@ def bounded_codec_sweep(task, tier, seed):
         bad = None
         law_ok = True
         used = 0
-        for pieces in SWEEP_PIECES:
-            for target in ("path", "wl"):
+        for pieces in (SWEEP_PIECES[:4] if tier == "quick" else SWEEP_PIECES):
+            for target in (("path",) if tier == "quick" else ("path", "wl")):
                 try:
                     d, law = sweep_case(enc, pieces, target)
                 except Exception as ex:  # noqa
@@ -2449,7 +2461,7 @@ def bounded_codec_sweep(task, tier, seed):
         else:
             rs.append(Res(nm, "bounded-ok", "native", time.time() - t0, f"{used} cases; {note}", "bounded"))
     task.bound_text = (f"every text codec of the stdlib `encodings` package usable on this platform ({len(rs)} codecs), "
-                       f"{len(SWEEP_PIECES)} piece lists, path and file-object targets, two dumps in a row; "
+                       f"{4 if tier == 'quick' else len(SWEEP_PIECES)} piece lists, {'path targets' if tier == 'quick' else 'path and file-object targets'}, two dumps in a row; "
                        f"codecs violating the incremental-encoder law: {unlawful or 'none'}")
     task.stats = {"cases": cases, "codecs": len(rs), "law_violated": unlawful}
     return rs
